@@ -1,11 +1,11 @@
-(* Model runner for the SMTP session properties (template: C03 is substituted per property by
+(* Model runner for the SMTP session properties (template: C17 is substituted per property by
    ml/gen_smtp_runners.sh). Evaluates the extracted byte-level session model on the client stream
    of every case and the dialogue specifications (the property oracles) on what the
    IMPLEMENTATION answered and stored. *)
-open C03_model
+open C17_model
 open Conv
 
-let pid = "C03"
+let pid = "C17"
 
 let split c s = if s = "-" || s = "" then [] else String.split_on_char c s
 let opt_str f = if f = "~" then None else Some (str_of_field f)
